@@ -223,7 +223,10 @@ def prepare_harness(hdir):
 
 
 def overlay_file(pid):
-    """Build a -overlay JSON adding harness/overlay/<pkgdir>/<file>.go to REPO/<pkgdir>/."""
+    """Build a -overlay JSON: harness/overlay/<repo-relative-path>.go is added to the
+    package at REPO/<path>; ui/web.go is replaced by a copy without its go:embed line
+    (the UI assets are not in this tree, so package ui - and app, which imports it -
+    would not compile otherwise)."""
     odir = os.path.join(HARNESS, "overlay")
     repl = {}
     for root, _, files in os.walk(odir):
@@ -231,6 +234,14 @@ def overlay_file(pid):
             if f.endswith(".go"):
                 rel = os.path.relpath(os.path.join(root, f), odir)
                 repl[os.path.join(REPO, rel)] = os.path.join(root, f)
+    os.makedirs(os.path.join(OUT, pid), exist_ok=True)
+    web = os.path.join(REPO, "ui", "web.go")
+    if os.path.exists(web):
+        src = open(web).read()
+        if "//go:embed app/dist" in src and not os.path.isdir(os.path.join(REPO, "ui", "app", "dist")):
+            gen = os.path.join(OUT, pid, "overlay_ui_web.go")
+            open(gen, "w").write(src.replace("//go:embed app/dist", "// (embed directive removed by /verif overlay: assets absent)"))
+            repl[web] = gen
     p = os.path.join(OUT, pid, "overlay.json")
     with open(p, "w") as fh:
         json.dump({"Replace": repl}, fh)
